@@ -25,7 +25,7 @@ def run_real(jobs, repo=None, timeout=600):
 # ---------------------------------------------------------------------------------------------------
 # small-value generators per L1 sort
 # ---------------------------------------------------------------------------------------------------
-STRS = ["", "a", "b c", "&", "<", ">", '"', "'", "\n", "\r", "a&b", "<b>x</b>", "&amp;", "&lt;", " x ", "é", "\U0001F600", "-->", "</script>", "x_y", "  ", "x-", "x_", "x__", "a_b_", "-", "_", "data-x-"]
+STRS = ["", "a", "b c", "&", "<", ">", '"', "'", "\n", "\r", "a&b", "<b>x</b>", "&amp;", "&lt;", " x ", "é", "\U0001F600", "-->", "</script>", "x_y", "  ", "x-", "x_", "x__", "a_b_", "-", "_", "data-x-", "<<<<<&&&&&>>>>><&>", "1<2, 2<3, 3<4, 4<5, 5<6, 6<7, 7<8, 8<9; <s>&</s>", "a\tb c", "x\ny"]
 NAMES = ["div", "span", "p", "br", "img", "script", "style", "a", "x-y", "hr", "input", "custom"]
 ATTRN = ["id", "class", "data-x", "style", "href"]
 
@@ -99,7 +99,7 @@ class Gen:
             if k == "CInt":
                 return C["CInt"](r.choice([0, 1, -2, 10]))
             if k == "CFloat":
-                return C["CFloat"](r.choice([0, 1, 2]))
+                return C["CFloat"](r.choice([0, 1, 2, 1234567, 31415926]))
             if k == "CBoolC":
                 return C["CBoolC"](r.random() < 0.5)
             if k == "CNode":
